@@ -3,7 +3,7 @@
    sending to eff_limit (0 = no limit never restricts the other value) and announces that; the
    requestor limits its sending to eff_limit of its own maximum and the acceptor's announcement.
    legal_max: 0 or at least 7 (the smallest maximum that can carry one payload byte). *)
-From PND Require Import Lib.Base Model.Negotiation Model.Dimse Proofs.NegotiationProofs Proofs.DimseProofs.
+From PND Require Import Lib.Base Model.Negotiation Model.Dimse Proofs.NegotiationProofs Proofs.DimseProofs Proofs.MaxLenProofs.
 
 Theorem C10_negotiation : forall own_r own_a : N,
   NegotiationProofs.legal_max own_r -> NegotiationProofs.legal_max own_a ->
@@ -24,23 +24,7 @@ Theorem C10_every_message_within : forall (lim ann : N) (cmd data : bytes) (pc :
     dimse_encode cmd data pc lim = Ok (cs ++ ds)
     /\ concat_payload cs = cmd /\ concat_payload ds = data
     /\ Forall (fun f => ann = 0 \/ frag_pdu_length f <= ann) (cs ++ ds).
-Proof.
-  intros lim ann cmd data pc Hl Hann.
-  exists (mk_frags pc (map (tag 1 3) (chunks (eff_max lim - 6) cmd))),
-         (mk_frags pc (map (tag 0 2) (chunks (eff_max lim - 6) data))).
-  split; [exact (dimse_encode_ok cmd data pc lim Hl)|].
-  pose proof (eff_max_legal lim Hl) as H7.
-  destruct (stream_of_chunks pc (eff_max lim) 1 3 cmd H7 ltac:(discriminate)) as [Hc1 [Hc2 _]].
-  destruct (stream_of_chunks pc (eff_max lim) 0 2 data H7 ltac:(discriminate)) as [Hd1 [Hd2 _]].
-  split; [exact Hc2|]. split; [exact Hd2|].
-  apply Forall_app. split.
-  - eapply Forall_impl; [|exact Hc1]. intros f [Hf _].
-    destruct (N.eq_dec ann 0) as [->|Hn]; [left; reflexivity|right].
-    destruct (Hann Hn) as [Hnz Hle]. rewrite eff_max_id in Hf by (destruct Hl; lia). lia.
-  - eapply Forall_impl; [|exact Hd1]. intros f [Hf _].
-    destruct (N.eq_dec ann 0) as [->|Hn]; [left; reflexivity|right].
-    destruct (Hann Hn) as [Hnz Hle]. rewrite eff_max_id in Hf by (destruct Hl; lia). lia.
-Qed.
+Proof. exact every_message_within. Qed.
 Print Assumptions C10_every_message_within.
 
 Example C10_example : negotiate 0 128 = mkneg 0 128 128 128 /\ negotiate 16384 0 = mkneg 16384 16384 16384 16384
